@@ -1629,6 +1629,101 @@ def tidy_inlined_temps(trees):
                                 stack.append(st)
                 for h in getattr(node, 'handlers', []) or []:
                     stack.append(h)
+            # (1) a helper that returned a tuple which the caller unpacks at once: the tuple is distributed over its assignments
+            for t in list(temps):
+                occ = [y for y in ast.walk(fn) if isinstance(y, ast.Name) and y.id == t]
+                loads = [y for y in occ if isinstance(y.ctx, ast.Load)]
+                if len(loads) != 1:
+                    continue
+                unpack = None
+                for b in blocks:
+                    for st in b:
+                        if isinstance(st, ast.Assign) and st.value is loads[0] and len(st.targets) == 1 and isinstance(st.targets[0], (ast.Tuple, ast.List)) \
+                                and all(isinstance(e, ast.Name) for e in st.targets[0].elts):
+                            unpack = (b, st)
+                if unpack is None:
+                    continue
+                k_ = len(unpack[1].targets[0].elts)
+                sites = []
+                ok_ = True
+                for b in blocks:
+                    for st in b:
+                        if isinstance(st, ast.Assign) and len(st.targets) == 1 and isinstance(st.targets[0], ast.Name) and st.targets[0].id == t:
+                            if isinstance(st.value, ast.Constant) and st.value.value is None:
+                                sites.append((b, st, None))
+                            elif isinstance(st.value, ast.Tuple) and len(st.value.elts) == k_ and not any(isinstance(e, ast.Starred) for e in st.value.elts):
+                                sites.append((b, st, st.value.elts))
+                            else:
+                                ok_ = False
+                if not ok_ or len(sites) != len([y for y in occ if isinstance(y.ctx, ast.Store)]):
+                    continue
+                names_ = [e.id for e in unpack[1].targets[0].elts]
+                for b, st, elts in sites:
+                    i = b.index(st)
+                    if elts is None:
+                        del b[i]
+                        if not b:
+                            b.append(ast.copy_location(ast.Pass(), st))
+                        continue
+                    # later elements must not read an earlier target (sequential assignment would change them)
+                    new = []
+                    clash = False
+                    for j, (nm, e) in enumerate(zip(names_, elts)):
+                        if any(isinstance(y, ast.Name) and y.id in names_[:j] for y in ast.walk(e)):
+                            clash = True
+                        new.append(ast.copy_location(ast.Assign(targets=[ast.Name(id=nm, ctx=ast.Store())], value=e), st))
+                    if clash:
+                        new = [ast.copy_location(ast.Assign(targets=[ast.Tuple(elts=[ast.Name(id=nm, ctx=ast.Store()) for nm in names_], ctx=ast.Store())],
+                                                            value=ast.Tuple(elts=list(elts), ctx=ast.Load())), st)]
+                    for x in new:
+                        ast.fix_missing_locations(x)
+                    b[i:i + 1] = new
+                ub, ust = unpack
+                ub.remove(ust)
+                if not ub:
+                    ub.append(ast.copy_location(ast.Pass(), ust))
+                temps.remove(t)
+                n += 1
+            # (2) a parameter temporary initialised from a caller local that the inlined body finally assigns back to that local
+            #     (x__p = p; ...; p = x__p) and that is not read in between: it *is* that local
+            for t in list(temps):
+                first = None
+                for st in fn.body:
+                    if isinstance(st, ast.Assign) and len(st.targets) == 1 and isinstance(st.targets[0], ast.Name) and st.targets[0].id == t:
+                        first = st
+                        break
+                if first is None or not isinstance(first.value, ast.Name):
+                    continue
+                a_ = first.value.id
+                backs = [st for b in blocks for st in b if isinstance(st, ast.Assign) and len(st.targets) == 1 and isinstance(st.targets[0], ast.Name)
+                         and st.targets[0].id == a_ and isinstance(st.value, ast.Name) and st.value.id == t]
+                if not backs:
+                    continue
+                lo_, hi_ = first.lineno, max(getattr(x, 'end_lineno', x.lineno) for x in backs)
+                a_occ = [y for y in ast.walk(fn) if isinstance(y, ast.Name) and y.id == a_ and y is not first.value and not any(y is bk.targets[0] for bk in backs)]
+                stmts_between = []
+                started = False
+                reads_between = False
+                # conservative: in the whole function, `a_` may only occur before `first`, as the back-assignments, or after the last of them (by statement order in fn.body)
+                idx_first = fn.body.index(first)
+                last_top = max(i for i, st in enumerate(fn.body) if any(bk is x for bk in backs for x in ast.walk(st)))
+                for i, st in enumerate(fn.body):
+                    if idx_first < i <= last_top:
+                        for y in ast.walk(st):
+                            if isinstance(y, ast.Name) and y.id == a_ and not any(y is bk.targets[0] for bk in backs):
+                                reads_between = True
+                if reads_between:
+                    continue
+                for b in blocks:
+                    for bk in backs:
+                        if bk in b:
+                            b.remove(bk)
+                            if not b:
+                                b.append(ast.copy_location(ast.Pass(), bk))
+                fn.body.remove(first)
+                rename(t, a_)
+                temps.remove(t)
+                n += 1
             for t in temps:
                 done = False
                 for b in blocks:
@@ -1815,10 +1910,51 @@ def thread_optional_locals(trees):
                     rewrite_chain(sub, fn, tree)
             for h in getattr(st, 'handlers', []) or []:
                 rewrite_chain(h.body, fn, tree)
+    def rewrite_wrap(stmts, fn):
+        """what an inlined "as a list" helper leaves:  [r = None;] if isinstance(v, list): r = v else: r = [v]
+           ->  r = v; if not isinstance(r, list): r = [r]          (r an inliner temporary; same value on both paths)"""
+        nonlocal n
+        i = 0
+        while i < len(stmts):
+            a = stmts[i]
+            if isinstance(a, ast.If) and len(a.body) == 1 and len(a.orelse) == 1 and isinstance(a.body[0], ast.Assign) and isinstance(a.orelse[0], ast.Assign) \
+                    and isinstance(a.test, ast.Call) and isinstance(a.test.func, ast.Name) and a.test.func.id == 'isinstance' and len(a.test.args) == 2 \
+                    and isinstance(a.test.args[0], ast.Name) and isinstance(a.test.args[1], ast.Name) and a.test.args[1].id == 'list':
+                v = a.test.args[0].id
+                ba, oa = a.body[0], a.orelse[0]
+                if len(ba.targets) == 1 and isinstance(ba.targets[0], ast.Name) and len(oa.targets) == 1 and isinstance(oa.targets[0], ast.Name) and ba.targets[0].id == oa.targets[0].id:
+                    r = ba.targets[0].id
+                    if _TEMP.match(r) and isinstance(ba.value, ast.Name) and ba.value.id == v and isinstance(oa.value, ast.List) and len(oa.value.elts) == 1 \
+                            and isinstance(oa.value.elts[0], ast.Name) and oa.value.elts[0].id == v:
+                        lo = i
+                        if i > 0 and isinstance(stmts[i - 1], ast.Assign) and len(stmts[i - 1].targets) == 1 and dotted_name(stmts[i - 1].targets[0]) == r and is_none(stmts[i - 1].value):
+                            lo = i - 1
+                        new = [ast.Assign(targets=[ast.Name(id=r, ctx=ast.Store())], value=ast.Name(id=v, ctx=ast.Load())),
+                               ast.If(test=ast.UnaryOp(op=ast.Not(), operand=ast.Call(func=ast.Name(id='isinstance', ctx=ast.Load()),
+                                                                                     args=[ast.Name(id=r, ctx=ast.Load()), ast.Name(id='list', ctx=ast.Load())], keywords=[])),
+                                      body=[ast.Assign(targets=[ast.Name(id=r, ctx=ast.Store())], value=ast.List(elts=[ast.Name(id=r, ctx=ast.Load())], ctx=ast.Load()))], orelse=[])]
+                        for x in new:
+                            ast.copy_location(x, a)
+                            ast.fix_missing_locations(x)
+                        stmts[lo:i + 1] = new
+                        n += 1
+                        i = lo + 2
+                        continue
+            i += 1
+        for st in stmts:
+            if isinstance(st, (ast.FunctionDef, ast.AsyncFunctionDef, ast.ClassDef)):
+                continue
+            for fld in ('body', 'orelse', 'finalbody'):
+                sub = getattr(st, fld, None)
+                if isinstance(sub, list) and sub and isinstance(sub[0], ast.stmt):
+                    rewrite_wrap(sub, fn)
+            for h in getattr(st, 'handlers', []) or []:
+                rewrite_wrap(h.body, fn)
     for tree in trees.values():
         for fn in [x for x in ast.walk(tree) if isinstance(x, (ast.FunctionDef, ast.AsyncFunctionDef))]:
             rewrite(fn.body, fn)
             rewrite_chain(fn.body, fn, tree)
+            rewrite_wrap(fn.body, fn)
         ast.fix_missing_locations(tree)
     return n
 
